@@ -273,8 +273,11 @@ func RuleB2(c *core.Ctx) {
 				fv := core.FieldOf(a)
 				if want, ok := owner[fv]; ok {
 					key := fmt.Sprintf("%s:store to %s", core.FuncName(fn), p.FieldRef(fv))
-					if core.FuncName(fn) == want {
-						c.Ob(rule, key, st.Pos(), core.FuncName(fn), core.Discharged, "written while the registry creates the object, before it is published")
+					_ = want
+					// the object is under construction: a fresh allocation of this very
+					// function (the composite literal), not yet handed to anyone
+					if al, isAlloc := a.X.(*ssa.Alloc); isAlloc && al.Parent() == fn {
+						c.Ob(rule, key, st.Pos(), core.FuncName(fn), core.Discharged, "written while the registry creates the object (a fresh allocation of this function), before it is published")
 					} else {
 						c.Ob(rule, key, st.Pos(), core.FuncName(fn), core.Violated, "a field of an interned object is written outside the registry's constructor path: every holder of the object (other accounts' reports, concurrent stages) sees the change")
 					}
